@@ -80,6 +80,14 @@ Opaque == {U(u, a) : u \in Look, a \in Core}
           \cup {B("cat", U("ngroup", a), [t |-> "kref"]) : a \in Core}
           \cup {B("cat", a, U(u, b)) : a \in {[t |-> "lit", c |-> "a"], [t |-> "w"]}, u \in Look, b \in {[t |-> "lit", c |-> "7"], [t |-> "s"]}}
 
+\* whole-text patterns ^...$ (the usual form of a JSON Schema `pattern`): both anchors around
+\* an atom, a quantified atom, a two-atom sequence or alternative
+Anch(x) == B("cat", [t |-> "bol"], B("cat", x, [t |-> "eol"]))
+Small3 == {[t |-> "lit", c |-> "a"], [t |-> "lit", c |-> "7"], [t |-> "d"]}
+Anchored == {Anch(x) : x \in CoreC \cup {U(u, a) : u \in {"star", "plus", "opt", "rep2"}, a \in CoreC}
+                              \cup {B(b, l, r) : b \in {"cat", "alt"}, l \in Small3, r \in Small3}
+                              \cup {U("nc", B("cat", [t |-> "lit", c |-> "a"], [t |-> "lit", c |-> "7"])), U("rep2", [t |-> "set", neg |-> FALSE, items |-> <<"a">>])}}
+
 RECURSIVE MustFallback(_)
 MustFallback(a) ==
   CASE a.t \in Look \/ a.t \in {"backref", "kref"} -> TRUE
